@@ -18,6 +18,7 @@ def make_cases(tier, seed):
     streams = [
         ("set_options", gen_str.set_option_cases()),
         ("indexes", gen_str.index_cases()),
+        ("generic_keys_all_types", gen_str.generic_key_cases()),
         ("malformed", gen_str.malformed_cases(seed)),
         ("random", gen_str.random_programs(seed, 1500 if quick else 25000)),
         # bounded-exhaustive: ALL programs of length 2 and 3 over 2 keys x the command instances
@@ -123,7 +124,8 @@ def run_main(ctx):
         ctx, PID, make_cases,
         rule=("every SET option subset x argument shape x letter case on a missing key / a string with a deadline / a key of "
               "another type; GETRANGE/SETRANGE over all index pairs from {min64, -len-1..len+1, max64} for len 0..3 and offsets "
-              "around the 512 MB limit; every command name with 0..5 arguments and unknown names; seeded random programs "
+              "around the 512 MB limit; TYPE/EXISTS/KEYS/MGET/RENAME/DEL/SET over keys of every value type (string, list, hash, set, "
+              "zset, stream) with and without a deadline, RENAME onto a missing key / itself / a key of each type; every command name with 0..5 arguments and unknown names; seeded random programs "
               "(1-40 commands, pool of 12 keys incl. case variants / empty / CR LF / NUL 0xff, keys pre-populated with the other "
               "types the model knows, numerals at the int64 edges, INCRBYFLOAT inside and outside the exact decimal domain, "
               "virtual-clock sleeps); bounded-exhaustive: ALL programs of length 2 and 3 over keys k/K x the command instances built "
